@@ -123,6 +123,7 @@ def run(chk):
     for _ in range(4 if not thorough else 12):
         docs = [DOCS.obographs_doc(rng, 'HP', 3 + j) for j in range(3)]
         cases.append({'kind': 'loader', 'docs': docs, 'order': rng.choice([[0, 1, 0], [0, 1, 2, 0, 1], [1, 0, 0, 1]]), 'hpoa': [DOCS.hpoa_text(1), DOCS.hpoa_text(2)]})
+    cases.append({'kind': 'loader', 'docs': DOCS.chained_docs(rng, 'HP'), 'order': [0, 1, 0, 1], 'hpoa': [DOCS.hpoa_text(1), DOCS.hpoa_text(2)]})
     for c in cases:
         chk.count('kind:' + c['kind'])
         if c['kind'] == 'graph':
@@ -135,7 +136,7 @@ def run(chk):
     chk.evaluations = sum(len(c.get('interleavings', [])) + len(c.get('histories', [])) for c in cases) + sum(1 for c in cases if c['kind'] == 'loader')
     chk.traces = chk.evaluations
     chk.extra['footprint_changes_diagnostic'] = sum(1 for o in obs if o.get('diag'))
-    chk.rule = ('random DAGs (half of them diamond ladders: nodes reachable over two routes) through the three real factories: (a) 40 histories per graph [a query, a traversal consumed '
+    chk.rule = ('random DAGs (half of them diamond ladders: nodes reachable over two routes) through the three real factories, each graph built by a factory instance that has built other graphs before (a primer graph whose last edge shares its subject with the first edge of this graph): (a) 40 histories per graph [a query, a traversal consumed '
                 '0-2 items and abandoned, then a query whose result must equal the result on a fresh graph] over all traversals / predicates / leaf / membership / iteration; (b) 2-3 '
                 'simultaneously open ancestor / descendant iterators (the same query twice in 40%), ALL interleavings of 2-4 next() calls each when <= 60 (thorough: <= 1680), else a random '
                 'sample: each iterator must yield exactly its solo sequence, and the yields are compared with the model in Coq (no repeats, right multiset); (c) digest of the graph '
